@@ -3,7 +3,8 @@
 
   Request (one line, fields in this order):
     retry mr=<int> init=<ns> max=<ns> mul=<p>/<q> rf=<a>/<b> el=<ns> hook=<0|1> log=<0|1>
-          outs=<o0>,<o1>,…      one outcome per possible handler call: f<k> = fails, s<k> = succeeds, with k output messages
+          outs=<o0>,<o1>,…      one outcome per possible handler call: f<k> = fails (c<k>/d<k>: with an error wrapping context.Canceled /
+                                 DeadlineExceeded, the message context being alive), s<k> = succeeds, with k output messages
                                  (call i returns the messages i.0 … i.(k-1) and, when it fails, the error e<i>)
           cancel=<j|->           the message context ends during call j
           ctxend=<call|pre|deadline|->   how (cancel() inside the call / cancelled before Retry is invoked / a deadline falls)
@@ -57,6 +58,12 @@ def frac (s : String) : Option (Nat × Nat) :=
 def outcomeOf (i : Nat) (s : String) : Option Outcome :=
   match s.toList with
   | 'f' :: r => do
+    let k ← (String.ofList r).toNat?
+    pure ⟨(List.range k).map (fun j => i * 100 + j), some i⟩
+  | 'c' :: r => do      -- fails with an error wrapping context.Canceled: a failure like any other
+    let k ← (String.ofList r).toNat?
+    pure ⟨(List.range k).map (fun j => i * 100 + j), some i⟩
+  | 'd' :: r => do      -- fails with the call's own DeadlineExceeded
     let k ← (String.ofList r).toNat?
     pure ⟨(List.range k).map (fun j => i * 100 + j), some i⟩
   | 's' :: r => do
@@ -265,6 +272,12 @@ def monitor (r : Req) (o : Obs) : String := Id.run do
   else
     -- finally returns the last error
     if o.err != errStr last.err then return "violated:last_error_returned"
+  -- re-invokes while attempts fail: giving up with retries left needs one of the two stated reasons – the message context
+  -- ended (during call j ≤ n−1), or MaxElapsedTime can have passed (the call returned ≥ MaxElapsedTime after call 0 ended)
+  if last.err.isSome && decide ((n : Int) < 1 + max 1 cfg.maxRetries) then
+    let ctxEnded := r.cancel.isSome
+    let budgetOut := cfg.maxElapsed != 0 && decide (r.tr ≥ (r.te[0]?.getD 0) + cfg.maxElapsed)
+    if !(ctxEnded || budgetOut) then return "violated:gives_up_without_reason"
   -- at most MaxRetries re-invocations
   if cfg.maxRetries ≥ 1 && decide ((n : Int) > 1 + cfg.maxRetries) then return "violated:at_most_max_retries"
   -- OnRetryHook with 1, 2, … in order, one per failed retry
